@@ -218,6 +218,11 @@ def run_case(case):
             counters["qr_matched"] += 1
             counters["qr_nonvacuous_clusters"] += nv
             counters["max_ratio_cluster"] = max(counters["max_ratio_cluster"], worst)
+            # the documented stopping rule: relative change of the estimate <= tolerance (or max_iterations reached)
+            verdict, J, M = matref.stop_rule_check(outd, Ad, Q0t.to(D), K, tol, u, gen)
+            counters["stop_rule_" + verdict] = counters.get("stop_rule_" + verdict, 0) + 1
+            if verdict == "violated":
+                raise Violation(f"QR method: the output matches the orthogonal iteration after {M} step(s), but the documented stopping rule (relative change <= tolerance {tol}, at most {K} iterations) stops after {J}", **desc)
         if nv == 0 and K != 1:
             counters["qr_vacuous"] += 1
         else:
@@ -226,7 +231,7 @@ def run_case(case):
         # as long as the rounding-level instability of the ascending order ((lmax/lmin)^k growth) stays below the tolerance
         gaps = (evA[1:] - evA[:-1]).abs().min()
         if est_kind in ("exact_sorted", "exact_unsorted") and kind in ("distinct", "geometric") and float(gaps) > 0 and nA > 0:
-            amp = (float(evA.max()) / max(float(evA.min()), 1e-300)) ** K
+            amp = math.exp(min(600.0, K * math.log(max(1.0, float(evA.max()) / max(float(evA.min()), 1e-300)))))
             tolfp = 256 * n * u * nA / float(gaps) * amp
             if tolfp < 0.05:
                 M = (outd.T @ Q0t.to(D)).abs()
